@@ -72,6 +72,10 @@ func kbDigest(seed int64, name string) []byte {
 		return []byte{}
 	case "dlong":
 		return hashBytes(seed, "kb-digest-long", 128)
+	case "dlong0": // longer than any curve order, leading bits zero
+		return append([]byte{0x01}, hashBytes(seed, "kb-digest-long0", 127)...)
+	case "dlongf":
+		return append([]byte{0xff}, hashBytes(seed, "kb-digest-longf", 127)...)
 	}
 	return hashBytes(seed, "kb-digest-"+name, 48)
 }
@@ -128,7 +132,8 @@ func execKeyBlind(c *ctx, in ev) []ev {
 			if err == nil && p == "" && res != nil {
 				e["out"] = keyIDs.id(enc(res))
 				if op == "Blind" {
-					f := refBlindScalar(curve, bk.D, ctx)
+					// the blind key as the caller passed it (not the library's key object)
+					f := refBlindScalar(curve, new(big.Int).SetBytes(kbBlindBytes(c.seed, curve, bname)), ctx)
 					x, y := curve.ScalarMult(pool[idx].X, pool[idx].Y, f.Bytes())
 					e["ref_ok"] = x.Cmp(res.X) == 0 && y.Cmp(res.Y) == 0
 				}
@@ -274,7 +279,7 @@ func genKeyBlind(c *ctx, emit func(ev)) {
 	r := newRand(c.seed, "keyblind")
 	blinds := []string{"b1", "b2", "b3", "b4", "lead0", "geN", "one"}
 	ctxs := []string{"", "ctxA", "ctxB", "long"}
-	digests := []string{"d0", "d1", "d2", "dlong"}
+	digests := []string{"d0", "d1", "d2", "dlong", "dlong0", "dlongf"}
 	sks := []string{"s1", "s2", "s3"}
 	want := func(s string) bool { return c.arg == "" || strings.Contains(","+c.arg+",", ","+s+",") }
 	mkSeq := func(n int) []any {
@@ -321,8 +326,26 @@ func genKeyBlind(c *ctx, emit func(ev)) {
 				}
 			}
 		}
-		// unblind each blinded key back
+		// consecutive blind signatures with the same key pair and blind but different contexts (and back),
+		// each verified under the key blinded with its own context and under the other one
+		ns0 := ns
+		for si := range sks {
+			for _, cx := range []string{"ctxA", "ctxB", "ctxA", "", "long"} {
+				steps = append(steps, ev{"op": "BSign", "sk": sks[si], "b": "b1", "ctx": cx, "d": "d1"})
+				ns++
+			}
+		}
 		np := nk // pool size so far
+		for si := range sks {
+			for _, cx := range []string{"ctxA", "ctxB", "", "long"} {
+				steps = append(steps, ev{"op": "Blind", "in": si, "b": "b1", "ctx": cx})
+				for k := 0; k < 5; k++ {
+					steps = append(steps, ev{"op": "Verify", "in": np, "sig": ns0 + si*5 + k, "d": "d1"})
+				}
+				np++
+			}
+		}
+		// unblind each blinded key back
 		for si := range sks {
 			for bi, b := range blinds {
 				cx := ctxs[(si+bi)%len(ctxs)]
